@@ -9,11 +9,11 @@ export GOFLAGS=-mod=mod GOPROXY=off GOSUMDB=off GOTOOLCHAIN=local CGO_ENABLED=0
 mkdir -p bin
 cat /repo/go.sum sim/go.sum.extra 2>/dev/null | sort -u > sim/go.sum
 BIN=$VERIF/bin/replay-$$.test
-RACE=""
-if grep -q '"property": "C14R"' "$F" 2>/dev/null; then RACE="-race"; export CGO_ENABLED=1; fi
+RACE=""; CPU=1
+if grep -q "\"property\": \"C14R\"" "$F" 2>/dev/null; then RACE="-race"; CPU=8; export CGO_ENABLED=1 GORACE="halt_on_error=1 exitcode=66"; fi
 if ! (cd sim && go1.26.8 test -tags verif $RACE -c -o "$BIN" .) > bin/replay-build-$$.log 2>&1; then cat bin/replay-build-$$.log; rm -f bin/replay-build-$$.log; exit 2; fi
 rm -f bin/replay-build-$$.log
-OUT=$(SIM_ROLE=replay SIM_FILE="$F" SIM_VERBOSE=1 GOMAXPROCS=2 "$BIN" -test.run '^TestSim$' -test.timeout 0 -test.cpu 1 2>&1)
+OUT=$(SIM_ROLE=replay SIM_FILE="$F" SIM_VERBOSE=1 GOMAXPROCS=2 "$BIN" -test.run "^TestSim$" -test.timeout 0 -test.cpu $CPU 2>&1)
 rm -f "$BIN"
 echo "$OUT" | grep -v '^\(PASS\|ok\|--- \|=== \)'
 WANT=$(python3 -c "import json,sys;d=json.load(open(sys.argv[1]));print('REPLAY-RESULT class=%s signature=%s'%(d['class'],d['signature']))" "$F")
